@@ -14,9 +14,17 @@ pub fn discover_local_files(root: &Path) -> Result<Vec<PathBuf>, Box<dyn std::er
         for entry in entries {
             let entry = entry?;
             let path = entry.path();
-            if path.is_dir() && !path.is_symlink() {
+            // An entry that cannot be examined is an error, not an absent file: skipping it
+            // silently would make it look deleted to the planner. Only "no longer there"
+            // (a dangling symlink, a file removed while we walk) is skipped.
+            let meta = match std::fs::metadata(&path) {
+                Ok(m) => m,
+                Err(e) if e.kind() == std::io::ErrorKind::NotFound => continue,
+                Err(e) => return Err(format!("{}: {e}", path.display()).into()),
+            };
+            if meta.is_dir() && !path.is_symlink() {
                 dirs.push(path);
-            } else if path.is_file() {
+            } else if meta.is_file() {
                 let rel = path.strip_prefix(root)?.to_path_buf();
                 files.push(rel);
             }
